@@ -84,6 +84,13 @@ pub(crate) trait MCTPControlMessageRequest {
     }
 }
 
+/// The SMBus byte count is a single byte. It covers everything after the
+/// byte count itself except the PEC: the source slave address, the four byte
+/// transport header and the message body.
+fn fits_smbus_byte_count(body: &MCTPMessageBody) -> bool {
+    body.len() <= u8::MAX as usize - 5
+}
+
 /// The standard trait for SMBus Request and Response
 pub trait SMBusMCTPRequestResponse {
     /// Get the address of the device
@@ -143,6 +150,11 @@ pub trait SMBusMCTPRequestResponse {
 
         let body = MCTPMessageBody::new(&header, *message_header, message_data, None);
 
+        if !fits_smbus_byte_count(&body) {
+            // Too large for a single SMBus block write
+            return Err(());
+        }
+
         let packet = MCTPSMBusPacket::new(&mut smbus_header, &base_header, &body);
 
         Ok(packet.to_raw_bytes(buf))
@@ -163,6 +175,11 @@ pub trait SMBusMCTPRequestResponse {
             MCTPMessageBodyHeader::new(false, MessageType::VendorDefinedPCI);
 
         let body = MCTPMessageBody::new(&header, *message_header, message_data, None);
+
+        if !fits_smbus_byte_count(&body) {
+            // Too large for a single SMBus block write
+            return Err(());
+        }
 
         let packet = MCTPSMBusPacket::new(&mut smbus_header, &base_header, &body);
 
@@ -186,6 +203,11 @@ pub trait SMBusMCTPRequestResponse {
 
         let body = MCTPMessageBody::new(&header, *message_header, message_data, None);
 
+        if !fits_smbus_byte_count(&body) {
+            // Too large for a single SMBus block write
+            return Err(());
+        }
+
         let packet = MCTPSMBusPacket::new(&mut smbus_header, &base_header, &body);
 
         Ok(packet.to_raw_bytes(buf))
@@ -206,6 +228,11 @@ pub trait SMBusMCTPRequestResponse {
             MCTPMessageBodyHeader::new(false, MessageType::VendorDefinedIANA);
 
         let body = MCTPMessageBody::new(&header, *message_header, message_data, None);
+
+        if !fits_smbus_byte_count(&body) {
+            // Too large for a single SMBus block write
+            return Err(());
+        }
 
         let packet = MCTPSMBusPacket::new(&mut smbus_header, &base_header, &body);
 
